@@ -62,13 +62,11 @@ func CompareProperties(location DifferenceLocation, schema1 *spec.Schema, schema
 	}
 
 	// find added properties
-	for eachProp2Name, eachProp2 := range schema2.Properties {
-		eachProp2 := eachProp2
-		if _, ok := schema1.Properties[eachProp2Name]; !ok {
-			childLoc := addChildDiffNode(location, eachProp2Name, &eachProp2)
+	for eachProp2Name, eachProp2 := range schema2Props {
+		if _, ok := schema1Props[eachProp2Name]; !ok {
+			childLoc := addChildDiffNode(location, eachProp2Name, eachProp2.Schema)
 
-			analyzedProp2 := schema2Props[eachProp2Name]
-			if analyzedProp2.Required {
+			if eachProp2.Required {
 				propDiffs = append(propDiffs, SpecDifference{DifferenceLocation: childLoc, Code: AddedRequiredProperty})
 			} else {
 				propDiffs = append(propDiffs, SpecDifference{DifferenceLocation: childLoc, Code: AddedProperty})
